@@ -53,6 +53,10 @@ def tree_hash(extra_paths=(), extra_text=""):
 def build_dir(key):
     d = os.path.join(BUILD, key)
     os.makedirs(d, exist_ok=True)
+    try:
+        os.utime(d, None)  # in use now: prune_build leaves recent directories alone
+    except OSError:
+        pass
     return d
 
 
@@ -66,8 +70,12 @@ def prune_build(keep):
         if os.path.isdir(p) and name not in keep and name != "tmp":
             ents.append((os.path.getmtime(p), p))
     ents.sort(reverse=True)
-    for _t, p in ents[6:]:
-        shutil.rmtree(p, ignore_errors=True)
+    # never remove what another check running at the same time (possibly against
+    # another tree) may be using: only directories untouched for two hours
+    old = time.time() - 7200
+    for t, p in ents[6:]:
+        if t < old:
+            shutil.rmtree(p, ignore_errors=True)
 
 
 def run_cmd(cmd, timeout=None, cwd=None, env=None):
